@@ -67,6 +67,9 @@ typedef struct vj {
 	json_int_t ival;                /* JSON_INTEGER                                  */
 	unsigned n;                     /* JSON_ARRAY: number of elements in val[0..n)   */
 	unsigned nk;                    /* number of non-NULL val[] entries              */
+	unsigned weight;                /* number of nodes in this subtree               */
+	unsigned char dead;             /* released (lifetime is flattened, see model)   */
+	unsigned char attached;         /* member of another container                   */
 	struct vj *val[VJ_MAXM];        /* object: slot k value (NULL = absent)          */
 	char key[VJ_MAXM][VJ_KLEN + 1]; /* object: slot k key text                       */
 	char s[VJ_SLEN + 1];            /* JSON_STRING                                   */
@@ -78,12 +81,14 @@ extern unsigned vj_parse_calls;      /* number of json_load* calls so far       
 extern unsigned vj_dump_calls;       /* number of json_dumps calls so far             */
 
 vj_t *vj_new(json_type t);           /* consumes an allocation index when jansson is hooked */
+void vj_attach_member(vj_t *o, unsigned k, vj_t *c);  /* harness-side construction of documents */
 /* havoc helpers: arbitrary values within the shape bound */
 json_t *vj_havoc_scalar_or_empty(void);                  /* any JSON type; containers empty */
 json_t *vj_havoc_value(int depth);                       /* containers filled to depth      */
 json_t *vj_havoc_object(const char *const *alpha, unsigned nalpha, int depth);
 json_t *vj_havoc_array(unsigned maxn, int depth);
 int vj_equal(const json_t *a, const json_t *b);
+int vj_equal_copy(const json_t *a, const json_t *b);      /* tree vs. its model-made copy    */
 json_t *vj_clone(const json_t *value);                   /* clone of a depth-1 tree         */          /* deep equality (reference)       */
 
 /* supplied by each harness (or models/parse_default.c): result of the n-th json_load* call.   *
